@@ -66,6 +66,7 @@ impl From<OutputStyleValidationError> for MainError { #[verifier::external_body]
 impl From<SelectionParseError> for MainError { #[verifier::external_body] fn from(e: SelectionParseError) -> Self { unimplemented!() } }
 impl From<SorterParserError> for MainError { #[verifier::external_body] fn from(e: SorterParserError) -> Self { unimplemented!() } }
 impl From<ProcessError> for MainError { #[verifier::external_body] fn from(e: ProcessError) -> Self { unimplemented!() } }
+impl From<std::io::Error> for MainError { #[verifier::external_body] fn from(e: std::io::Error) -> Self { unimplemented!() } }
 impl From<PreSetParserError> for MainError { #[verifier::external_body] fn from(e: PreSetParserError) -> Self { unimplemented!() } }
 
 #[verifier::external_trait_specification]
@@ -110,8 +111,73 @@ impl<R: Read> Reader<R> {
 pub fn from_std_in<R: Read>(stdin: R) -> (r: Reader<R>)
     ensures r.wf(), r.cur() is None, r.rest() == source(stdin), r.line() == 1, r.col() == 1, r.name() == None::<String>,
 { unimplemented!() }
+// src/reader.rs: from_file — ASSUMED here, proved in unit R (R.from_file.lazy): nothing read yet, position 1:1, the file's bytes
+#[verifier::external_body]
+pub fn from_file(file_name: &std::path::PathBuf) -> (r: std::io::Result<Reader<std::io::BufReader<std::fs::File>>>)
+    ensures r is Ok ==> r->Ok_0.wf() && r->Ok_0.cur() is None && r->Ok_0.rest() == super::vfs::file_source(*file_name) && r->Ok_0.line() == 1 && r->Ok_0.col() == 1,
+{ unimplemented!() }
 }
 use rd::*;
+// ---- the file system as far as read_file touches it (trusted declarations)
+pub mod vfs {
+use vstd::prelude::*;
+use std::path::PathBuf;
+use vstd::std_specs::iter::IteratorSpec;
+pub uninterp spec fn file_source(p: PathBuf) -> Seq<Option<u8>>;
+// the number of bytes below a path: the length of a file, at least the sum over the entries of a directory
+pub uninterp spec fn path_bytes(p: PathBuf) -> nat;
+// PathBuf::clone is a copy
+pub broadcast axiom fn axiom_cloned_pathbuf(a: PathBuf, b: PathBuf)
+    requires #[trigger] cloned(a, b),
+    ensures a == b;
+pub broadcast axiom fn axiom_file_bytes(p: PathBuf) ensures (#[trigger] file_source(p)).len() <= path_bytes(p);
+pub open spec fn paths_bytes(s: Seq<PathBuf>, k: int) -> nat
+    decreases s.len() - k
+{ if k < 0 || k >= s.len() { 0 } else { path_bytes(s[k]) + paths_bytes(s, k + 1) } }
+#[verifier::external_type_specification]
+#[verifier::external_body]
+pub struct ExFile(std::fs::File);
+#[verifier::external_type_specification]
+#[verifier::external_body]
+#[verifier::reject_recursive_types(R)]
+pub struct ExBufReader<R: ?Sized>(std::io::BufReader<R>);
+// assert!(file.exists(), ..) (rewrite assert_exists): a file operand that does not exist ends the run with a panic message
+// (exit status 101) — before anything of it is read
+#[verifier::external_body]
+pub fn require_exists(file: &PathBuf) { unimplemented!() }
+#[verifier::external_body]
+pub fn is_dir(file: &PathBuf) -> (r: bool) { unimplemented!() }
+#[verifier::external_body] pub struct VDirEntry { _p: () }
+impl VDirEntry {
+    pub uninterp spec fn path_spec(&self) -> PathBuf;
+    #[verifier::external_body]
+    pub fn path(&self) -> (r: PathBuf) ensures r == self.path_spec() { unimplemented!() }
+}
+// std::fs::read_dir: the entries of the directory in the order the OS lists them (each one may fail to be read)
+#[verifier::external_body] pub struct VReadDir { _p: () }
+impl Iterator for VReadDir {
+    type Item = std::io::Result<VDirEntry>;
+    #[verifier::external_body]
+    fn next(&mut self) -> Option<std::io::Result<VDirEntry>> { unimplemented!() }
+}
+impl vstd::std_specs::iter::IteratorSpecImpl for VReadDir {
+    open spec fn obeys_prophetic_iter_laws(&self) -> bool { true }
+    #[verifier::prophetic]
+    uninterp spec fn remaining(&self) -> Seq<std::io::Result<VDirEntry>>;
+    #[verifier::prophetic]
+    open spec fn will_return_none(&self) -> bool { true }
+    uninterp spec fn decrease(&self) -> Option<nat>;
+    uninterp spec fn peek(&self, i: int) -> Option<std::io::Result<VDirEntry>>;
+}
+pub open spec fn entry_paths(s: Seq<std::io::Result<VDirEntry>>) -> Seq<PathBuf> {
+    Seq::new(s.len(), |i: int| match s[i] { Ok(e) => e.path_spec(), Err(_) => arbitrary() })
+}
+#[verifier::external_body]
+pub fn read_dir(file: &PathBuf) -> (r: std::io::Result<VReadDir>)
+    ensures r is Ok ==> r->Ok_0.decrease() is Some && paths_bytes(entry_paths(r->Ok_0.remaining()), 0) <= path_bytes(*file),
+{ unimplemented!() }
+}
+use vfs::*;
 //@@ include prelude/fed.rs
 
 // what an option text parses to (the expression parser is C13/C18's subject; here it only has to be a FUNCTION of the text)
@@ -291,6 +357,7 @@ impl<S: Read> Master<S> {
     // the handles the run was given: `stdout` is the designated output stream, `stderr` the designated diagnostics stream
     pub closed spec fn wired(&self) -> bool { self.stdout.fd() == 1 && self.stderr.fd() == 2 }
     pub closed spec fn out_h(&self) -> vio::Out { self.stdout }
+    pub closed spec fn files_spec(&self) -> Seq<PathBuf> { self.cli.files@ }
     pub closed spec fn err_h(&self) -> vio::Out { self.stderr }
 }
 impl RegexCache {
@@ -426,9 +493,58 @@ impl<S: Read> Master<S> {
 //@@ header-from specs/loop/read_input_reduced.spec
 //@@ endfn
 //@@ fn go.read_file = src/lib.rs :: impl<S: Read> Master<S> :: fn read_file
+//@@ safety C03 C14 C16 C17 C20 C05
 //@@ ret r
-//@@ assume
-//@@ header-from specs/loop/read_file.spec
+//@@ rewrite assert_exists path_is_dir fs_read_dir
+//@@ attr
+    #[verifier::exec_allows_no_decreases_clause]
+//@@ header
+        requires old(process).inv(), self.wired(),
+            // "the input files hold fewer than 2^64 bytes" (positions and value counters are machine integers)
+            *old(index) + path_bytes(*file) + 2 <= usize::MAX,
+        ensures
+            final(process).inv(), // @obl GO.read_file.inv : C03
+            is_prefix(old(process).log(), final(process).log()), // @obl GO.read_file.prefix : C16 C20
+            // a file, or every file below a directory, is read through read_input: the pipeline is fed rows in order and nothing
+            // else happens to it; a failure of any of them is this call's failure
+            r is Ok ==> exists|fed: Seq<Context>| #[trigger] fed_post(old(process), final(process), fed), // @obl GO.read_file.fed : C03 C17 C16 C20
+            // Break is passed on — from every depth of a directory tree — and only then
+            r is Ok && r->Ok_0 is Break ==> done(final(process)), // @obl GO.read_file.break : C14
+            r is Ok && r->Ok_0 is Continue && !old(process).must_break() ==> !final(process).must_break(), // @obl GO.read_file.continue : C14
+            r is Ok ==> *final(index) <= *old(index) + path_bytes(*file),
+//@@ body-start
+        let ghost p0: &dyn Process = &*process;
+        let ghost i0 = *index;
+        broadcast use vfs::axiom_file_bytes;
+//@@ before-loop 1
+            proof {
+                assert forall|x: Seq<Context>| Seq::<Context>::empty().add(x) =~= x by {}
+                assert(fed_post(old(process), process, Seq::empty()));
+            }
+//@@ loop 1 iter it
+                invariant
+                    process.inv(), self.wired(), is_prefix(old(process).log(), process.log()), i0 == *old(index),
+                    exists|fed: Seq<Context>| #[trigger] fed_post(old(process), process, fed),
+                    *index + paths_bytes(entry_paths(it.seq()), it.index@) <= i0 + path_bytes(*file),
+                    i0 + path_bytes(*file) + 2 <= usize::MAX,
+                    old(process).must_break() || !process.must_break(),
+//@@ loop-start 1
+                let ghost pre: &dyn Process = &*process;
+                let ghost fed1 = choose|fed: Seq<Context>| fed_post(old(process), pre, fed);
+                let ghost k = it.index@;
+                proof { assert(paths_bytes(entry_paths(it.seq()), k) == path_bytes(entry_paths(it.seq())[k]) + paths_bytes(entry_paths(it.seq()), k + 1)); }
+//@@ after "let path = entry?.path();"
+                proof { assert(entry_paths(it.seq())[k] == path); }
+//@@ before "return Ok(ProcessDesision::Break);"
+                    proof {
+                        let f2 = choose|f2: Seq<Context>| fed_post(pre, &*process, f2);
+                        lemma_fed_trans(old(process), pre, &*process, fed1, f2);
+                    }
+//@@ loop-end 1
+                proof {
+                    let f2 = choose|f2: Seq<Context>| fed_post(pre, &*process, f2);
+                    lemma_fed_trans(old(process), pre, &*process, fed1, f2);
+                }
 //@@ endfn
 
 // ---- the DRIVER half of go(): read everything (stdin, or the files in order, stopping at Break), then complete().
@@ -442,6 +558,8 @@ impl<S: Read> Master<S> {
 //@@ prologue
     pub fn go_drive(&self, started: Box<dyn Process>) -> (r: Result<Box<dyn Process>>)
         requires started.inv(), self.wired(),
+            // "the input files hold fewer than 2^64 bytes"
+            paths_bytes(self.files_spec(), 0) + 2 <= usize::MAX,
             // "the standard input is shorter than 2^64 bytes" (line / column / value counters are machine integers)
             forall|s: S| #[trigger] source(s).len() + 1 < usize::MAX,
         ensures
@@ -450,6 +568,7 @@ impl<S: Read> Master<S> {
             r is Ok ==> r->Ok_0.inv(), // @obl GO.drive.inv : C03
     {
         let mut process = started;
+        broadcast use vfs::axiom_cloned_pathbuf;
         let ghost mut fed: Seq<Context> = Seq::empty();
         proof { assert forall|x: Seq<Context>| #[trigger] fed.add(x) =~= x by {} }
 //@@ epilogue
@@ -467,9 +586,11 @@ impl<S: Read> Master<S> {
                 fed = fed.add(f2);
             }
 //@@ loop 1 iter it
-                invariant process.inv(), fed_box(started, process, fed),
+                invariant process.inv(), fed_box(started, process, fed), self.wired(),
+                    it.seq() =~= self.cli.files@, index + paths_bytes(it.seq(), it.index@) + 2 <= usize::MAX,
 //@@ loop-start 1
                 let ghost pre = process;
+                proof { assert(paths_bytes(it.seq(), it.index@) == path_bytes(it.seq()[it.index@]) + paths_bytes(it.seq(), it.index@ + 1)); }
 //@@ before "break;"
                     proof {
                         let f2 = choose|f2: Seq<Context>| fed_post(&*pre, &*process, f2);
